@@ -46,6 +46,8 @@ def guess_native(name):
         return ["to_algebraic"]
     if name.startswith("c19_cls_"):
         return ["square_string_to_bitboard"]
+    if name.startswith("c01_slider"):
+        return ["uf_rook", "uf_bishop"]
     if name == "m5_tables_wired":
         return ["magic_new"]
     return []
